@@ -72,6 +72,12 @@ def make_shape(shape, n, pattern):
         for i in range(w):
             for i2 in range(w):
                 edges.append(('Z%03d' % i, 'E%03d_%03d' % (d - 1, i2)))
+        if len(pattern) > 1 and pattern[1] == 'Always':
+            # a trigger below the layers: its changed output invalidates the final Outputs late, while every Ephemeral layer
+            # above is still parked -- the requirement then has to travel up through all layers
+            nodes.append(('T', 'Always'))
+            for i in range(w):
+                edges.append(('Z%03d' % i, 'T'))
     elif shape == 'etail':
         # one producing job and below it a layered tail of Ephemerals nobody consumes (pruned at startup)
         w, d = n
